@@ -59,6 +59,21 @@ Inductive tx :=
 
 Inductive resp := RNone | RNonce (n : N) | RSuccess.
 
+(* ---------- small pure helpers (named so that proofs can treat them as atoms) ---------- *)
+Definition two64 : N := 18446744073709551616.
+(* GetNextAvailableNonce: 0 when unset *)
+Definition nn (s : store) : N := match next_nonce s with Some n => n | None => 0%N end.
+(* ReserveAndIncrementNonce: uint64 arithmetic *)
+Definition bump (s : store) : store := set_next_nonce (Some ((nn s + 1) mod two64)%N) s.
+(* GetSignatureThreshold: 0 when unset *)
+Definition thr_or0 (s : store) : N := match threshold s with Some t => t | None => 0%N end.
+(* "found && len(body) > max" fails *)
+Definition body_fits (s : store) (body : bytes) : bool :=
+  match max_body s with Some m => negb (m <? N.of_nat (length body))%N | None => true end.
+(* "found && amount.GT(limit)" fails; the key is the lower-cased token *)
+Definition limit_ok (s : store) (denom : bytes) (a : Z) : bool :=
+  match lookup (limit_key denom) (limits s) with Some l => negb (lim_amount l <? a)%Z | None => true end.
+
 (* ---------- the monad ---------- *)
 Inductive res (A : Type) := ROk (a : A) | RErr | RPanic | RUnmodelled.
 Arguments ROk {A}. Arguments RErr {A}. Arguments RPanic {A}. Arguments RUnmodelled {A}.
@@ -95,10 +110,10 @@ Definition role (f : store -> option bytes) : M bytes :=
   s <- get_st ;; match f s with Some r => ret r | None => panic end.
 
 (* one dependency call: take the next directive of the plan, decide, record, apply *)
+Definition next_directive (plan : list directive) : directive := match plan with [] => DDefault | d :: _ => d end.
 Definition dep (rule : ledger -> bool) (effect : ledger -> ledger) (mk : bool -> depcall) : M unit :=
   fun h =>
-    let d := match h_plan h with [] => DDefault | d :: _ => d end in
-    let ok := decide d (rule (h_lg h)) in
+    let ok := decide (next_directive (h_plan h)) (rule (h_lg h)) in
     let h' := {| h_st := h_st h; h_lg := if ok then effect (h_lg h) else h_lg h; h_plan := tl (h_plan h);
                  h_ev := h_ev h; h_dc := h_dc h ++ [mk ok] |} in
     (if ok then ROk tt else RErr, h').
@@ -220,7 +235,7 @@ Section Handlers.
     guard (beqb am from) ;;;
     guard (negb (n =? 0)%N) ;;;
     s <- get_st ;;
-    let old := match threshold s with Some t => t | None => 0%N end in
+    let old := thr_or0 s in
     guard (negb (n =? old)%N) ;;;
     guard (negb (len32 (attesters s) <? n)%N) ;;;
     mod_st (set_threshold (Some n)) ;;;
@@ -279,7 +294,7 @@ Section Handlers.
   Definition send_message (dest : N) (recipient caller sender : bytes) (nonce : N) (body : bytes) : M unit :=
     s <- get_st ;;
     guard (negb (flag_on (sr_paused s))) ;;;
-    guard (match max_body s with Some m => negb (m <? N.of_nat (length body))%N | None => true end) ;;;
+    guard (body_fits s body) ;;;
     guard (negb (Nat.eqb (length recipient) 0 || is_zeros recipient)) ;;;
     bz <- lift_opt (encode_message {| m_version := 0; m_src := 4; m_dst := dest; m_nonce := nonce;
                                       m_sender := sender; m_recipient := recipient; m_caller := caller;
@@ -289,9 +304,8 @@ Section Handlers.
   (* ReserveAndIncrementNonce: uint64 arithmetic *)
   Definition reserve_nonce : M N :=
     s <- get_st ;;
-    let n := match next_nonce s with Some n => n | None => 0%N end in
-    mod_st (set_next_nonce (Some ((n + 1) mod 18446744073709551616)%N)) ;;;
-    ret n.
+    mod_st bump ;;;
+    ret (nn s).
 
   Definition h_send_message (from : bytes) (dest : N) (recipient body : bytes) : M N :=
     addr <- lift_opt (acc_address (hrp e) from) ;;
@@ -353,8 +367,7 @@ Section Handlers.
     require_modelled (text_ok burn_token) ;;;
     guard (equal_fold (mint_denom e) burn_token) ;;;
     guard (negb (flag_on (bm_paused s))) ;;;
-    guard (match lookup (limit_key (to_lower burn_token)) (limits s) with
-           | Some l => negb (lim_amount l <? a)%Z | None => true end) ;;;
+    guard (limit_ok s (to_lower burn_token) a) ;;;
     guard (valid_denom burn_token) ;;;
     dep_transfer addr burn_token a ;;;
     dep_burn (module_str e) burn_token a ;;;
@@ -373,6 +386,11 @@ Section Handlers.
     deposit_for_burn from amount dest mint_recipient burn_token caller.
 
   (* ---------- receive ---------- *)
+  (* destination caller: all-zero, or names the submitting account *)
+  Definition caller_ok (caller from : bytes) : bool :=
+    if is_zeros caller then true else
+    match bech32_of e (skipn 12 caller) with Some c => beqb c from | None => false end.
+
   Definition mint_branch (s : store) (m : message) : M unit :=
     guard (negb (flag_on (bm_paused s))) ;;;
     b <- lift_opt (decode_burn (m_body m)) ;;
@@ -393,8 +411,7 @@ Section Handlers.
     verify_now s msg att thr ;;;
     m <- lift_opt (decode_message msg) ;;
     guard (m_dst m =? 4)%N ;;;
-    guard (if is_zeros (m_caller m) then true else
-           match bech32_of e (skipn 12 (m_caller m)) with Some c => beqb c from | None => false end) ;;;
+    guard (caller_ok (m_caller m) from) ;;;
     guard (m_version m =? 0)%N ;;;
     guard (negb (mem (nonce_key (m_src m) (m_nonce m)) (nonces s))) ;;;
     mod_st (fun s => set_nonces (insert (nonce_key (m_src m) (m_nonce m))
